@@ -17,6 +17,11 @@
 #define OPEN_SESSION_ASSIGNS D->sessionStarted, D->bind2Bound.has, D->iqManager.opaque, D->carbonManager.opaque, D->csiManager.opaque, gh_sent, gh_sent_last, gh_iq_opened, gh_iq_opened_resumed, gh_iq_cancel_all, gh_carbon_opened, gh_csi_opened, gh_ev_connected, gh_ev_connected_smEnabled, gh_ev_connected_smResumed, gh_ev_connected_bind2Used, gh_ev_connected_fastTokenChanged, gh_ev_connected_authenticationMethod
 #define STEP_ASSIGNS D->listener, gh_step_pending, gh_steps, gh_cont_last
 #define GIVE_UP_ASSIGNS C2S.m_canResume, gh_sock_disconnects, gh_errors
+/* the two flags follow the events: the session flag is set exactly when the session was reported in this run, and a step is pending
+   afterwards only if this run started one (on entry none is pending) */
+/* (written over negations: a havocked C bool may hold any non-zero byte in CBMC) */
+#define FLAGS_FOLLOW_EVENTS_A ((!D->sessionStarted) == !(gh_ev_connected == __CPROVER_old(gh_ev_connected) + 1))
+#define FLAGS_FOLLOW_EVENTS_B (gh_steps != __CPROVER_old(gh_steps) || !gh_step_pending)
 #define GAVE_UP (gh_sock_disconnects == __CPROVER_old(gh_sock_disconnects) + 1)
 #define NOT_GIVEN_UP (gh_sock_disconnects == __CPROVER_old(gh_sock_disconnects))
 
@@ -90,3 +95,15 @@ void C2sStreamManager_onBind2Bound(C2sStreamManager *self, const Bind2Bound *bou
 __CPROVER_assigns(self->m_enabled, self->m_canResume, self->m_smId, self->m_resumeHost, self->m_resumePort, gh_sent, gh_sent_last)
 __CPROVER_ensures(1)
 ;
+
+/* ---- callees of handleStreamFeatures --------------------------------------------------------------------------------------------
+ * handleStarttls (verified against the TLS gate in units/C04): returns true iff it took over (sent <starttls/> and registered the
+ * continuation that starts the TLS handshake, or disconnected); it never opens the session.  gh_tls_handled records its answer. */
+bool gh_tls_handled;
+bool QXmppOutgoingClient_handleStarttls(QXmppOutgoingClient *self, const QXmppStreamFeatures *features)
+__CPROVER_assigns(gh_tls_handled, STEP_ASSIGNS, GIVE_UP_ASSIGNS, gh_sent, gh_sent_last)
+__CPROVER_ensures(gh_tls_handled == __CPROVER_return_value)
+__CPROVER_ensures(!__CPROVER_return_value ==> (gh_steps == __CPROVER_old(gh_steps) && gh_step_pending == __CPROVER_old(gh_step_pending) && gh_sock_disconnects == __CPROVER_old(gh_sock_disconnects)))
+__CPROVER_ensures(__CPROVER_return_value ==> (gh_steps - __CPROVER_old(gh_steps) <= 1u && (gh_steps != __CPROVER_old(gh_steps) || gh_step_pending == __CPROVER_old(gh_step_pending))))
+;
+void CsiManager_onStreamFeatures(CsiManager *self, const QXmppStreamFeatures *features) __CPROVER_requires(1) __CPROVER_assigns(self->opaque) __CPROVER_ensures(1);
